@@ -1,13 +1,110 @@
 package main
 
 import (
+	"flag"
 	"fmt"
-	"golang.org/x/tools/go/packages"
+	"os"
+	"sort"
+	"strings"
 )
 
 func main() {
-	cfg := &packages.Config{Mode: packages.LoadAllSyntax, Dir: "/repo", BuildFlags: []string{"-tags=verif"}}
-	pkgs, err := packages.Load(cfg, "./...")
-	fmt.Println(len(pkgs), err)
-	for _, p := range pkgs { fmt.Println(p.PkgPath, len(p.Syntax), len(p.Errors)) }
+	if len(os.Args) < 2 {
+		fmt.Println("usage: gvc verify|check ...")
+		os.Exit(2)
+	}
+	initScratch()
+	code := 0
+	func() {
+		defer cleanupScratch()
+		switch os.Args[1] {
+		case "verify":
+			code = cmdVerify(os.Args[2:])
+		case "check":
+			code = cmdCheck(os.Args[2:])
+		default:
+			fmt.Println("unknown command")
+			code = 2
+		}
+	}()
+	os.Exit(code)
 }
+
+// verify: developer command — verify named functions and print every obligation.
+func cmdVerify(args []string) int {
+	fl := flag.NewFlagSet("verify", flag.ExitOnError)
+	repo := fl.String("repo", "/repo", "repository")
+	fn := fl.String("func", "", "comma-separated function keys (prefix match with *)")
+	dump := fl.String("dump", "", "directory to dump failed queries")
+	verbose := fl.Bool("v", false, "verbose")
+	timeout := fl.Int("timeout", 10, "solver timeout (s)")
+	fl.Parse(args)
+	eng, err := loadEngine(*repo)
+	if err != nil {
+		fmt.Println("load error:", err)
+		return 2
+	}
+	eng.timeoutS = *timeout
+	var keys []string
+	for k, t := range eng.targets {
+		for _, pat := range strings.Split(*fn, ",") {
+			if pat == "" {
+				continue
+			}
+			if k == pat || (strings.HasSuffix(pat, "*") && strings.HasPrefix(k, strings.TrimSuffix(pat, "*")) && t.spec != nil) {
+				keys = append(keys, k)
+			}
+		}
+	}
+	if *fn == "all" {
+		for k, t := range eng.targets {
+			if t.spec != nil {
+				keys = append(keys, k)
+			}
+		}
+	}
+	sort.Strings(keys)
+	bad := 0
+	for _, k := range keys {
+		res := eng.verifyFunc(eng.targets[k])
+		eng.discharge(res.Obls, 12)
+		nd := 0
+		for _, o := range res.Obls {
+			if o.Decided == "discharged" {
+				nd++
+			}
+		}
+		fmt.Printf("== %s: %d/%d discharged (gen %.2fs)\n", k, nd, len(res.Obls), res.GenTime)
+		for _, u := range res.Unsupported {
+			fmt.Println("   UNSUPPORTED:", u)
+			bad++
+		}
+		if *verbose {
+			for _, u := range res.Unmodelled {
+				fmt.Println("   unmodelled:", u)
+			}
+			for _, u := range res.Trusted {
+				fmt.Println("   trusted:", u)
+			}
+		}
+		for _, o := range res.Obls {
+			if o.Decided != "discharged" || *verbose {
+				fmt.Printf("   [%s] %s (%s, %s %.2fs) %s  @%s\n", o.Decided, o.Name, o.Result.Status, o.Result.Solver, o.Result.Time, o.Text, o.Pos)
+				if o.Decided != "discharged" {
+					bad++
+					if *dump != "" {
+						fmt.Println("      query:", eng.dumpQuery(o, *dump))
+					}
+					if o.Result.Status == "error" {
+						fmt.Println("      ", strings.TrimSpace(o.Result.Raw))
+					}
+				}
+			}
+		}
+	}
+	if bad > 0 {
+		return 1
+	}
+	return 0
+}
+
